@@ -107,6 +107,7 @@ def factory(kind, spec):
         lst = spec.get("loc_strand", spec["strand"])
         obj = E.make_loc(spec["blocks"], lst, plain)
         ops["other"] = E.make_loc(spec["other"], lst, plain)
+        ops["far"] = E.make_loc([[0, 1]], lst, plain)  # the generator keeps position 0..3 free of blocks
         return obj, ops
     if kind == "sequence":
         loc = E.make_loc(spec["blocks"][:1], spec["strand"])
@@ -180,6 +181,15 @@ def actions(kind):
             "reset_strand": lambda o, p: o.reset_strand(Strand.MINUS), "shift": lambda o, p: o.shift_position(1),
             "relative_interval": lambda o, p: o.relative_interval_to_parent_location(0, min(2, len(o)), Strand.PLUS),
             "location_relative_to_other": lambda o, p: p["other"].location_relative_to(o),
+            "merge_overlapping": lambda o, p: o.merge_overlapping(),
+            "optimize_and_combine": lambda o, p: o.optimize_and_combine_blocks(),
+            "extend_absolute_0": lambda o, p: o.extend_absolute(0, 0),
+            "minus_disjoint": lambda o, p: o.minus(p["far"]),
+            "intersection_self": lambda o, p: o.intersection(o),
+            "contains_other": lambda o, p: o.contains(p["other"]),
+            "has_overlap_other": lambda o, p: o.has_overlap(p["other"]),
+            "gaps_op": lambda o, p: o.gaps_location(),
+            "scan_windows_op": lambda o, p: list(o.scan_windows(2, 1, 0)),
         }
     elif kind == "sequence":
         A = {
@@ -288,6 +298,14 @@ def _spec(rnd, mode=None):
     k = rnd.choice([1, 2, 2, 3]) if mode not in ("loc-single", "loc-unstranded") else rnd.choice([1, 1, 2])
     cuts = sorted(rnd.sample(range(4, G - 4), 2 * k))
     blocks = [[cuts[2 * i], cuts[2 * i + 1]] for i in range(k)]
+    if mode == "loc-overlap":
+        # blocks that strictly overlap (a -1 frameshift layout), a share of them with a third block behind a gap
+        a = rnd.randrange(4, G - 17)
+        b = rnd.randrange(a + 3, a + 8)
+        c = rnd.randrange(a + 1, b - 1)
+        blocks = sorted([[a, b], [c, rnd.randrange(b, b + 4)]])
+        if rnd.random() < 0.4:
+            blocks.append([blocks[-1][1] + 2, blocks[-1][1] + 4])
     st = rnd.choice("+-")
     n = sum(b[1] - b[0] for b in blocks)
     ca = rnd.randrange(0, max(1, n - 3))
@@ -317,7 +335,11 @@ def _spec(rnd, mode=None):
     vlo, vhi = blocks[0][0], blocks[0][1]
     if chunk:
         vlo = min(max(vlo, chunk[0]), vhi - 1)
-    return {"root": R, "blocks": blocks, "strand": st, "loc_strand": "." if mode == "loc-unstranded" else rnd.choice([st, st, st, "."]), "cds": cds,
+    if mode == "loc-overlap":
+        cds, frames = None, None
+        if st == "-":
+            blocks = sorted(blocks, key=lambda x: (x[0], -x[1]))
+    return {"root": R, "blocks": blocks, "strand": st, "loc_strand": "." if mode == "loc-unstranded" else (st if mode == "loc-overlap" else rnd.choice([st, st, st, "."])), "cds": cds,
             "frames": frames, "chunk": chunk,
             "other": [[o0, o0 + rnd.randrange(1, 6)]], "vpos": rnd.randrange(vlo, vhi)}
 
@@ -330,7 +352,7 @@ def _replay(args):
     rnd = random.Random(seed)
     acts = actions(kind)
     ev = []
-    modes = ["loc-any", "loc-single", "loc-unstranded", "loc-deep"] if kind == "location" else [None] if kind == "sequence" else \
+    modes = ["loc-any", "loc-single", "loc-unstranded", "loc-deep", "loc-overlap"] if kind == "location" else [None] if kind == "sequence" else \
         ["none", "enclosing", "cutting", "cutting", "cutting"]
     for h, mode in [(h, m) for h in hists for m in modes]:
         sp = _spec(rnd, mode)
